@@ -1,9 +1,15 @@
 use super::*;
+#[cfg(not(feature = "verif-hooks"))]
 use alloc::alloc::{alloc, dealloc, realloc};
+#[cfg(feature = "verif-hooks")]
+use crate::verif_hooks::{alloc, dealloc, realloc};
 use core::{alloc::Layout, hint, ptr, ptr::NonNull};
 
+#[cfg(not(feature = "verif-hooks"))]
 #[cfg(not(loom))]
 use core::sync::atomic::AtomicUsize;
+#[cfg(all(not(loom), feature = "verif-hooks"))]
+use crate::verif_hooks::AtomicUsize;
 #[cfg(loom)]
 use loom::sync::atomic::AtomicUsize;
 
@@ -60,6 +66,8 @@ impl HeapBuffer {
         //   from `text`, and `ptr` was allocated to be at least that length.
         // - Both src and dst is aligned for u8.
         // - src and dst don't overlap because we allocated dst just now.
+        #[cfg(feature = "verif-hooks")]
+        crate::verif_hooks::note_copy(text.as_ptr(), ptr.as_ptr(), text_len);
         unsafe { ptr::copy_nonoverlapping(text.as_ptr(), ptr.as_ptr(), text_len) };
 
         Ok(HeapBuffer { ptr, len })
@@ -96,6 +104,8 @@ impl HeapBuffer {
         //   greater than `text_len`.
         // - Both src and dst is aligned for u8.
         // - src and dst don't overlap because we allocated dst just now.
+        #[cfg(feature = "verif-hooks")]
+        crate::verif_hooks::note_copy(text.as_ptr(), ptr.as_ptr(), text_len);
         unsafe { ptr::copy_nonoverlapping(text.as_ptr(), ptr.as_ptr(), text_len) };
 
         Ok(HeapBuffer { ptr, len })
